@@ -64,28 +64,7 @@ func runC08(p *Prog, r *Report) {
 	}
 	if want("C08.3") {
 		ruleInstallAfterDurable(p, r, "C08.3")
-		r.Begin("C08.3b", "E-GUARD", "a failed commit abandons the version id it spawned (so the reference loop is not blocked) and only then", 1)
-		if fn := resolveFn(p, r, "leveldb", "(*session).commit"); fn != nil {
-			var epi *ssa.Function
-			for _, a := range fn.AnonFuncs {
-				if countInstr(a, evSendOn("leveldb.session", "abandon")) > 0 {
-					epi = a
-				}
-			}
-			if epi == nil {
-				r.Fail(fnName(fn), "abandon:unresolved-anchor", "commit has a deferred epilogue that abandons the spawned id", "not found", p.Pos(fn.Pos()), nil)
-			} else {
-				r.Fn(fnName(epi))
-				errNil := nilAtom("err==nil", mCellNamed("err"))
-				checkGuard(p, r, GuardSpec{Rule: "abandon-only-on-error", Fn: epi, Target: evSendOn("leveldb.session", "abandon"), TargetDesc: "s.abandon <- nv.id", Atoms: []Atom{errNil}, G: func(a []bool) bool { return !a[0] }, GDesc: "err != nil", MinTargets: 1})
-				if w := findPath(entryPoint(epi), atomEdges([]Atom{errNil}, []bool{false}), evSendOn("leveldb.session", "abandon"), isReturn); w != nil {
-					r.Fail(fnName(epi), "not-abandoned-on-error", "a failed commit abandons its spawned version id", "with err != nil the epilogue can return without abandoning: the reference loop waits for that id forever and stops deleting files", p.posOfLast(w, isReturn), p.renderPath(w))
-				} else {
-					r.OK(fnName(epi), "abandoned-on-error", "a failed commit abandons its spawned version id")
-				}
-			}
-		}
-		r.End()
+		ruleSpawnedIdSettled(p, r, "C08.3b")
 	}
 	if want("C08.4") {
 		r.Begin("C08.4", "E-ORD", "every error exit of the record writer leaves the sequence consumed: when writeJournal fails (the record may already be in the journal file) writeLocked advances db.seq by the group's length before returning, so a later acknowledged group never reuses those numbers", 2)
